@@ -103,7 +103,10 @@ fn builder_for(hdr: &J, le: bool) -> R<Builder<'static>> {
         b = b.sender(s).map_err(es)?;
     }
     let serial = u32::from_be_bytes(bytes_of(&hdr["serial"]).try_into().unwrap());
-    b = b.serial(NonZeroU32::new(serial).ok_or("serial 0")?).endian(endian(le));
+    b = b.serial(NonZeroU32::new(serial).ok_or("serial 0")?);
+    if ty == 1 || ty == 4 {
+        b = b.endian(endian(le)); // replies inherit the byte order of the call they answer
+    }
     Ok(b)
 }
 
